@@ -240,6 +240,13 @@ type lintTarget struct {
 	Pos   func(token.Pos) string
 }
 
+// updateRoleNames: the role names of the update chain; a field with one of these
+// names selected from another object (msg.FilterDelete) still carries its role.
+var updateRoleNames = map[string]bool{
+	"filterPartial": true, "filterDelete": true, "remoteWrite": true, "persist": true,
+	"deleteSelector": true, "partialSelector": true, "deleteElements": true, "readElements": true,
+}
+
 // crossWiring reports definite swaps of same-typed values identified by name:
 //   - call arguments: an identifier argument whose name equals the name of a
 //     *different* parameter of the callee with the identical type
@@ -272,20 +279,31 @@ func crossWiring(t lintTarget, report func(key, pos, detail string)) int {
 					if i >= np || (sig.Variadic() && i >= np-1) {
 						break
 					}
-					id, ok := ast.Unparen(a).(*ast.Ident)
-					if !ok {
+					// the role name of the argument: an identifier, or the field selected from a value (msg.FilterDelete)
+					argName := ""
+					switch e := ast.Unparen(a).(type) {
+					case *ast.Ident:
+						argName = e.Name
+					case *ast.SelectorExpr:
+						// a field of another object carries a role only for the update-role names: elsewhere
+						// (request.MsgCounter passed as reference) crossing names is the point
+						if sel := t.Info.Selections[e]; sel != nil && sel.Kind() == types.FieldVal && updateRoleNames[lower(e.Sel.Name)] {
+							argName = e.Sel.Name
+						}
+					}
+					if argName == "" {
 						continue
 					}
 					pi := sig.Params().At(i)
-					if id.Name == pi.Name() || id.Name == "_" || pi.Name() == "" {
+					if lower(argName) == lower(pi.Name()) || argName == "_" || pi.Name() == "" {
 						continue
 					}
 					for j := 0; j < np; j++ {
 						pj := sig.Params().At(j)
-						if j != i && pj.Name() == id.Name && types.Identical(pj.Type(), pi.Type()) {
+						if j != i && lower(pj.Name()) == lower(argName) && types.Identical(pj.Type(), pi.Type()) {
 							fn := enclosingFuncName(t.Name, file, x.Pos())
-							key := fmt.Sprintf("%s|call:%s|arg:%s->param:%s", fn, calleeName(t.Info, x), id.Name, pi.Name())
-							report(key, t.Pos(x.Pos()), fmt.Sprintf("argument %q is passed for parameter %q although the callee has a parameter %q of the identical type %s", id.Name, pi.Name(), pj.Name(), shortType(pi.Type())))
+							key := fmt.Sprintf("%s|call:%s|arg:%s->param:%s", fn, calleeName(t.Info, x), argName, pi.Name())
+							report(key, t.Pos(x.Pos()), fmt.Sprintf("argument %q is passed for parameter %q although the callee has a parameter %q of the identical type %s", argName, pi.Name(), pj.Name(), shortType(pi.Type())))
 						}
 					}
 				}
@@ -301,8 +319,16 @@ func crossWiring(t lintTarget, report func(key, pos, detail string)) int {
 						continue
 					}
 					k, ok1 := kv.Key.(*ast.Ident)
-					v, ok2 := ast.Unparen(kv.Value).(*ast.Ident)
-					if !ok1 || !ok2 || lower(k.Name) == lower(v.Name) {
+					var v *ast.Ident
+					switch e := ast.Unparen(kv.Value).(type) {
+					case *ast.Ident:
+						v = e
+					case *ast.SelectorExpr:
+						if sel := t.Info.Selections[e]; sel != nil && sel.Kind() == types.FieldVal && updateRoleNames[lower(e.Sel.Name)] {
+							v = e.Sel
+						}
+					}
+					if !ok1 || v == nil || lower(k.Name) == lower(v.Name) {
 						continue
 					}
 					var kf *types.Var
